@@ -399,6 +399,9 @@ static void c07_plan(Rng &rng, Plan &p, uint64_t variant) {
         if (payload.empty()) payload = "plain";
         // avoid accidental validity: start with a byte no deflate/gzip/zlib stream of ours starts with
         payload[0] = 'H'; if (payload.size() > 1) payload[1] = 'T';
+        // 'H' opens a *stored* raw-deflate block; if bytes 3-4 happen to be the complement of bytes 1-2 the body is a
+        // valid deflate prefix after all (seen once in 118 000 runs): make sure it is not
+        if (payload.size() >= 5) { unsigned len = (unsigned char) payload[1] | ((unsigned char) payload[2] << 8), nlen = (unsigned char) payload[3] | ((unsigned char) payload[4] << 8); if (((len ^ 0xffffu) & 0xffffu) == nlen) payload[3] = (char) (payload[3] ^ 0x55); }
         body = payload; ce = cname == "plain-labelled-gzip" ? "gzip" : "deflate"; passthrough_expected = true;
     }
     if (body.size() > 120000) { // keep one-byte schedules inside the simulated time limit
